@@ -386,7 +386,11 @@ futures-core = { version = "0.3", default-features = false }
             f.write(toml)
     lock = os.path.join(d, "Cargo.lock")
     if not os.path.exists(lock):
-        shutil.copy(os.path.join(REPO, "Cargo.lock"), lock)
+        # the harness lock file (committed) pins a superset of what this crate needs
+        for cand in (os.path.join(ROOT, "harness", "Cargo.lock"), os.path.join(REPO, "Cargo.lock")):
+            if os.path.exists(cand):
+                shutil.copy(cand, lock)
+                break
     return d
 
 
